@@ -560,6 +560,18 @@ theorem addRequestBody_im {d anc b c c'} (h : addRequestBody d anc b c = .ok c')
   cases h
   exact .upd _ _ _ (fun x => ⟨rfl, rfl, rfl⟩)
 
+theorem addRequest_tail_im {d : BDir} {anc : List Up} {b : BodyM} {c c₁ c' : Cat} {b1 b2 b3 b4 b5 : Bool} {m : Msg}
+    (hc₁ : IMap c c₁)
+    (h : (if b1 = true then addRequestBody d anc b c₁
+          else if b2 = true then addRequestBody d anc b c₁
+          else if b3 = true then addRequestBody d anc b c₁
+          else if b4 = true then addRequestBody d anc b c₁
+          else if b5 = true then (.error ⟨d.id, m⟩ : R Cat) else pure c₁) = .ok c') : IMap c c' := by
+  repeat' split at h
+  any_goals (exact hc₁.trans (addRequestBody_im h))
+  · cases h
+  · cases h; exact hc₁
+
 theorem addRequest_im {d anc c c'} (h : addRequest d anc c = .ok c') : IMap c c' := by
   unfold addRequest at h
   simp only [fail] at h
@@ -568,21 +580,21 @@ theorem addRequest_im {d anc c c'} (h : addRequest d anc c = .ok c') : IMap c c'
   obtain ⟨nt, _, h⟩ := bind_ok h
   split at h
   · obtain ⟨i, _, h⟩ := bind_ok h
-    obtain ⟨c₁, h₁, h⟩ := bind_ok h
-    cases h₁
-    have hc₁ : IMap c (c.updInter i fun x => if x.request.isNone then { x with request := some { id := d.id } } else x) := by
-      refine .upd _ _ _ (fun x => ?_)
-      split <;> exact ⟨rfl, rfl, rfl⟩
-    repeat' split at h
-    any_goals (exact hc₁.trans (addRequestBody_im h))
-    · cases h
-    · cases h; exact hc₁
+    split at h
+    · split at h
+      · -- a second Request directive of one method: refused
+        obtain ⟨c₁, h₁, _⟩ := bind_ok h
+        cases h₁
+      · obtain ⟨c₁, h₁, h⟩ := bind_ok h
+        cases h₁
+        refine addRequest_tail_im ?_ h
+        exact .upd _ _ _ (fun x => ⟨rfl, rfl, rfl⟩)
+    · obtain ⟨c₁, h₁, h⟩ := bind_ok h
+      cases h₁
+      exact addRequest_tail_im (.refl _) h
   · obtain ⟨c₁, h₁, h⟩ := bind_ok h
     cases h₁
-    repeat' split at h
-    any_goals (exact addRequestBody_im h)
-    · cases h
-    · cases h; exact .refl _
+    exact addRequest_tail_im (.refl _) h
 
 theorem addResponseBody_im {d anc b c c'} (h : addResponseBody d anc b c = .ok c') : IMap c c' := by
   unfold addResponseBody at h
@@ -1227,19 +1239,43 @@ theorem addHeaders_obliv (d : BDir) (anc) : Obliv (addHeaders d anc) := by
 theorem obliv_upd {F : Cat → R Cat} (h : Obliv F) (ts : List TagM) (c : Cat) (i : IId) (g : InterM → InterM) :
     F ((setTags ts c).updInter i g) = (F (c.updInter i g)).map (setTags ts) := h ts (c.updInter i g)
 
+theorem addRequest_tail_obliv (d : BDir) (anc : List Up) (b : BodyM) (b1 b2 b3 b4 b5 : Bool) (m : Msg) :
+    Obliv (fun c => if b1 = true then addRequestBody d anc b c
+          else if b2 = true then addRequestBody d anc b c
+          else if b3 = true then addRequestBody d anc b c
+          else if b4 = true then addRequestBody d anc b c
+          else if b5 = true then (.error ⟨d.id, m⟩ : R Cat) else pure c) := by
+  intro ts c
+  simp only []
+  repeat' (first | rfl | exact addRequestBody_obliv d anc _ ts _ | split)
+
 theorem addRequest_obliv (d : BDir) (anc) : Obliv (addRequest d anc) := by
   intro ts c
   unfold addRequest
-  simp only [fail]
-  ofail
-  ofail
+  by_cases h1 : (!d.annot.isEmpty) = true
+  · rw [if_pos h1, if_pos h1]; rfl
+  rw [if_neg h1, if_neg h1]
+  dsimp only
+  by_cases h2 : (!(d.param "SchemaNotation").isEmpty && !(d.param "Type").isEmpty) = true
+  · rw [if_pos h2, if_pos h2]; rfl
+  rw [if_neg h2, if_neg h2]
   refine bind_obliv _ _ _ (fun nt => ?_)
   split
   · refine bind_obliv _ _ _ (fun i => ?_)
-    simp only [pure_bind]
-    repeat' (first | rfl | exact obliv_upd (addRequestBody_obliv d anc _) ts c i _ | split)
+    have hg : (setTags ts c).getInter i = c.getInter i := rfl
+    rw [hg]
+    cases c.getInter i with
+    | none =>
+      simp only [pure_bind]
+      exact addRequest_tail_obliv d anc _ _ _ _ _ _ _ ts c
+    | some x =>
+      simp only []
+      split
+      · rfl
+      · simp only [pure_bind]
+        exact obliv_upd (addRequest_tail_obliv d anc _ _ _ _ _ _ _) ts c i _
   · simp only [pure_bind]
-    repeat' (first | rfl | exact addRequestBody_obliv d anc _ ts _ | split)
+    exact addRequest_tail_obliv d anc _ _ _ _ _ _ _ ts c
 
 theorem addResponse_obliv (d : BDir) (anc) : Obliv (addResponse d anc) := by
   intro ts c
